@@ -420,6 +420,9 @@ class ModuleVistor(NodeVisitor):
                 # and a top-level module or package stays a root of the system.
                 # A package cannot be moved into itself or into one of its sub-packages.
                 pass
+            elif not isinstance(ob, model.Module) and not isinstance(ob.parent, model.Module):
+                # The name is an alias of a member of a class: the member stays in its class.
+                pass
             else:
                 if origin_module.all is None or origin_name not in origin_module.all:
                     if isinstance(ob, model.Module):
